@@ -1394,3 +1394,129 @@ def r19(R):
     for v in vs[:1]:
         R.violation(v.node, v.message, g, v.path,
                     key='created object passed over without a record')
+
+
+# ------------------------------------------------------------------ C13.R20
+@rule('C13.R20', 'the cut-off of the non-undoing blob sweep is what was '
+      'committed when the sweep BEGAN: it is read once, before the loop over '
+      'the blob directories (read per directory, after the existence test of '
+      'the object, a commit that finishes in between has its new blob '
+      'directory removed)', props=['C08'], min_instances=1)
+def r20(R):
+    cls = R.prog.cls(BLOBSTORAGE)
+    f = R.method(cls, '_packNonUndoing')
+    n = 0
+    inloop = set()
+    for l in walk_local(f.node):
+        if isinstance(l, (ast.For, ast.While)):
+            inloop |= {id(x) for s_ in l.body for x in ast.walk(s_)}
+    for c in walk_local(f.node):
+        if isinstance(c, ast.Call) and isinstance(c.func, ast.Attribute) and \
+                c.func.attr == 'lastTransaction':
+            n += 1
+            R.instance('_packNonUndoing: %s' % ast.unparse(c)[:50])
+            if id(c) in inloop:
+                R.violation(
+                    (f.module.relpath, f.qualname,
+                     ' '.join(ast.unparse(c).split()), c.lineno),
+                    '_packNonUndoing reads the last committed transaction '
+                    'inside its loop over the blob directories: a commit '
+                    'that creates a blob can finish between the existence '
+                    'test of the object ("does not exist") and this read '
+                    '("its file is not newer than the cut-off") -- the '
+                    'sweep removes the directory of a blob that was just '
+                    'committed', key='sweep cut-off read inside the loop')
+    R.require(n >= 1, '_packNonUndoing no longer reads the last committed '
+              'transaction as its cut-off')
+
+
+# ------------------------------------------------------------------ C13.R21
+@rule('C13.R21', 'the copies _txn_undo_write has scheduled are all made: no '
+      'pass through the loop that works the list off goes on to the next '
+      'entry without storing a blob file (two undone changes of one blob in '
+      'one transaction each get their copy: the later one must win)',
+      props=['C06'], min_instances=1)
+def r21(R):
+    cls = R.prog.cls(FS)
+    f = R.method(cls, '_txn_undo_write')
+    g, b, F = R.cfg(f, cls, max_depth=0)
+    loops = {id(l) for l in walk_local(f.node)
+             if isinstance(l, ast.For) and isinstance(l.iter, ast.Name)
+             and any(_contains_call(x, '_blob_storeblob') for x in l.body)}
+    R.instance('FileStorage._txn_undo_write', deferred_loops=len(loops))
+    if not loops:
+        return           # copies made in place: C13.R10 judges them
+
+    def edge(node, st, lab, tgt):
+        if lab in ('e', 'eb'):
+            return st
+        if node.kind == 'for' and id(node.ast) in loops:
+            return 'pending' if lab == 'T' else 'out'
+        if st == 'pending' and any(
+                op.kind == 'call' and op.path and
+                op.path[-1] == '_blob_storeblob' for op in F.ops(node)):
+            return 'done'
+        return st
+
+    def at(node, st):
+        if node.kind == 'for' and id(node.ast) in loops and st == 'pending':
+            return Violation(
+                '_txn_undo_write passes over a scheduled blob copy: when '
+                'one transaction undoes two changes of a blob (newest '
+                'first) the second undo\'s record points at the oldest '
+                'state while the file keeps the bytes the first undo put '
+                'there')
+        return st
+
+    vs, stats = explore(g, 'out', at=at, edge=edge)
+    R.count(stats)
+    for v in vs[:1]:
+        R.violation(v.node, v.message, g, v.path,
+                    key='scheduled blob copy passed over')
+
+
+# ------------------------------------------------------------------ C13.R22
+@rule('C13.R22', 'for a record the packer drops that has no data of its own '
+      'the backpointer IS followed before the record is judged not to be a '
+      'blob record (the undo of a blob change writes exactly such a record, '
+      'and a blob file of its own)', props=['C07'], min_instances=1)
+def r22(R):
+    pk = R.prog.cls(PACKER)
+    f = R.method(pk, 'copyDataRecords')
+    g, b, F = R.cfg(f, pk, max_depth=0)
+    n = 0
+    # the block entered for a record that is dropped: the `if` on the
+    # reachability test
+    blocks = [t for t in walk_local(f.node) if isinstance(t, ast.If) and any(
+        isinstance(x, ast.Call) and dotted(x.func) and
+        dotted(x.func)[-1] == 'isReachable' for x in ast.walk(t.test))]
+    for t in blocks:
+        inside = [x for s_ in t.body + t.orelse for x in ast.walk(s_)]
+        calls = [c for c in inside if isinstance(c, ast.Call) and
+                 dotted(c.func) and dotted(c.func)[-1] == 'is_blob_record']
+        if not calls:
+            continue
+        # the branch that holds the judgement
+        branch = t.body if any(x is calls[0] for s_ in t.body
+                               for x in ast.walk(s_)) else t.orelse
+        follows = any(isinstance(x, ast.Call) and dotted(x.func) and
+                      dotted(x.func)[-1] in ('fetchDataViaBackpointer',
+                                             '_loadBackTxn', '_loadBack_impl')
+                      for s_ in branch for x in ast.walk(s_))
+        for c in calls:
+            n += 1
+            R.instance('copyDataRecords: %s' % ast.unparse(c)[:50])
+            if not follows:
+                R.violation(
+                    (f.module.relpath, f.qualname,
+                     ' '.join(ast.unparse(c).split()), c.lineno),
+                    'copyDataRecords judges `%s` for a dropped record '
+                    'without ever following the backpointer of a record '
+                    'that has no data of its own: the undo of a blob '
+                    'change is such a record and has a blob file -- the '
+                    'pack drops the record and leaves the file' %
+                    ' '.join(ast.unparse(c).split())[:50],
+                    key='dropped backpointer record judged without its '
+                        'data')
+    R.require(n >= 1, 'copyDataRecords no longer asks is_blob_record for '
+              'the records it drops')
